@@ -715,7 +715,7 @@ func (g *Gen) checkPost(res []string, pos token.Pos) {
 		}
 		t, err := env.evalBool(cl.E)
 		if err != nil {
-			if strings.HasPrefix(cl.Label, "local") && strings.Contains(err.Error(), "unknown name") {
+			if strings.HasPrefix(cl.Label, "local") && strings.Contains(err.Error(), "unknown name") && !retSuffixRe.MatchString(cl.Label) {
 				continue // the local variable is not in scope at this return
 			}
 			g.errorf("%s: ensures #%d: %v", g.fnLabel(), k, err)
